@@ -97,3 +97,17 @@ Theorem C07_wingbox_geometry_mirror :
     wg_fem_twist nx1 m' xu0 yu0 yl0 xun yun yln e' = wg_fem_twist nx1 m xu0 yu0 yl0 xun yun yln e.
 Proof. exact wingbox_geometry_mirror. Qed.
 Print Assumptions C07_wingbox_geometry_mirror.
+
+(* structure: GIVEN the element-level covariance (matrix of the mirrored element = matrix of the element with its nodes
+   exchanged and the reflected DOFs' signs on both sides - checked on the implementation's element matrices by the oracle
+   SpatialBeamAlone.element-matrices-mirror), every row of the mirrored beam's assembled matrix applied to the mirrored
+   displacements is the reflected row of the original: nodal forces and moments are reflected; any number of elements *)
+From OAS Require Import Beam BeamCantilever.
+Theorem C07_structure_assembled_system_mirror_covariant :
+  forall (ne : nat) (k k' : nat -> nat -> nat -> R) (u : nat -> R),
+    (forall e p q, (e < ne)%nat -> (p < 12)%nat -> (q < 12)%nat -> k' (ne - 1 - e)%nat p q = sg p * sg q * k e (sw p) (sw q)) ->
+    forall a r, (a <= ne)%nat -> (r < 6)%nat ->
+    rsum (6 * S ne) (fun q => assembled ne k' (ne - a) r (q / 6) (q mod 6) * um ne u q)
+    = sg r * rsum (6 * S ne) (fun q => assembled ne k a r (q / 6) (q mod 6) * u q).
+Proof. exact assembled_mirror. Qed.
+Print Assumptions C07_structure_assembled_system_mirror_covariant.
